@@ -32,7 +32,7 @@ LinAlgReasons(r) ==
     [] f = "length_square" -> Res(r, LengthSquare(r.a))
     [] f = "narrow_cast" -> Pre(r.n >= 1 /\ r.n < Len(r.a)) \cup Res(r, NarrowCast(r.a, r.n))
     [] f = "push_back" -> Res(r, PushBack(r.a, r.x))
-    [] f \in {"structure_cast", "to_dim", "to_vector", "copy"} -> Res(r, StructureCast(r.a))
+    [] f \in {"structure_cast", "sign_cast", "to_dim", "to_vector", "copy"} -> Res(r, StructureCast(r.a))
     [] f = "null" -> Res(r, Null(r.n))
     [] f = "fill" -> Res(r, Fill(r.n, r.x))
     [] f = "init" -> Res(r, Init(r.n, LAMBDA i : r.c0 + r.c1 * i))
@@ -70,5 +70,54 @@ LinAlgReasons(r) ==
     [] f \in {"mstructure_cast", "mcopy"} -> Res(r, r.a)
     [] f = "meq" -> Res(r, r.a = r.b)
     [] f = "mne" -> Res(r, r.a # r.b)
+  (* extension round *)
+    [] f = "div" -> Pre(SameDim(r.a, r.b)) \cup Res(r, VDiv(r.a, r.b))
+    [] f = "div_scalar" -> Res(r, VDivScalar(r.a, r.k))
+    [] f = "mod" -> Pre(SameDim(r.a, r.b)) \cup Res(r, VMod(r.a, r.b))
+    [] f = "mod_scalar" -> Res(r, VModScalar(r.a, r.k))
+    [] f = "ceil_div_signed" -> Res(r, VCeilDivSigned(r.a, r.k))
+    [] f = "unit" -> Pre(r.axis >= 0 /\ r.axis < r.n) \cup Res(r, Unit(r.n, r.axis))
+    [] f = "is_quadratic" -> Res(r, IsQuadratic(r.a))
+    [] f = "infinity_norm" -> Pre(IsMat(r.a)) \cup Res(r, InfinityNorm(r.a))
+    [] f \in {"assign", "massign"} -> Res(r, r.b)             \* a = b: afterwards a holds b's values
+    [] f = "row_assign" ->                                     \* row i of the matrix := v, other rows untouched
+         Pre(IsMat(r.a) /\ r.i >= 0 /\ r.i < Rows(r.a) /\ Len(r.v) = Cols(r.a)) \cup Res(r, [r.a EXCEPT ![r.i + 1] = r.v])
+    [] f = "row_op" ->                                         \* row i (op)= row j of the same matrix
+         Pre(IsMat(r.a) /\ r.i >= 0 /\ r.i < Rows(r.a) /\ r.j >= 0 /\ r.j < Rows(r.a)) \cup
+         Res(r, [r.a EXCEPT ![r.i + 1] =
+                   IF r.op = "+=" THEN VAdd(r.a[r.i + 1], r.a[r.j + 1])
+                   ELSE IF r.op = "-=" THEN VSub(r.a[r.i + 1], r.a[r.j + 1])
+                   ELSE VMul(r.a[r.i + 1], r.a[r.j + 1])])
+    [] f = "row_copy" ->                                       \* row i = row j of the same matrix (through a const view)
+         Pre(IsMat(r.a) /\ r.i >= 0 /\ r.i < Rows(r.a) /\ r.j >= 0 /\ r.j < Rows(r.a)) \cup
+         Res(r, [r.a EXCEPT ![r.i + 1] = r.a[r.j + 1]])
+    [] f = "sphere_eq" -> Res(r, r.a = r.b /\ r.ra = r.rb)
+    [] f = "sphere_ne" -> Res(r, ~(r.a = r.b /\ r.ra = r.rb))
+    [] f = "sphere_members" -> Diff(r, [origin |-> r.a, radius |-> r.ra])
+    [] f = "interval_distance" ->
+         Pre(r.a[1] <= r.a[2] /\ r.b[1] <= r.b[2]) \cup
+         (IF r.r \in IntervalDistanceAllowed(r.a, r.b) THEN {} ELSE {"wrong-r"})
     [] OTHER -> {"unknown-function"}
+
+(* SCOPE.  A record kind is IN SCOPE iff the statement of C14 (properties.jsonl) covers it:
+   "Over exact (integer) scalars, vector/dim/matrix operators are the component-wise and
+   linear-algebraic operations: +, -, scalar and component-wise * are computed per component; matrix
+   product is associative and distributes over +; transpose is an involution with (AB)^T = B^T A^T;
+   determinant is multiplicative and A * adjugate(A) = det(A) * identity; matrix-vector product, dot,
+   cross, length_square, identity, translation/scaling builders, row/at access, structure_cast,
+   narrow_cast/push_back, null, fill, init and comparison agree with the same operations on plain
+   arrays." -- quantified over "static and view storage types".
+   Only these kinds can produce a VIOLATION; all other kinds are OBSERVED ONLY (judged and counted,
+   disagreements reported as observations). *)
+InScope ==
+  {"add", "sub", "mul", "neg", "scale", "scale_left",                 \* "+, -, scalar and component-wise *"
+   "add_assign", "sub_assign", "mul_assign", "scale_assign", "row_op", \* the same operators in compound form, static and view storage
+   "madd", "msub", "madd_assign", "msub_assign", "mscale", "mscale_left", "mscale_assign",
+   "mmul", "transpose", "determinant", "adjugate", "mvec", "dot", "cross", "length_square",
+   "identity", "translation", "scaling", "row", "mat_at", "at",        \* "row/at access"
+   "structure_cast", "mstructure_cast", "narrow_cast", "push_back", "null", "fill", "init",
+   "eq", "ne", "lt", "gt", "le", "ge", "meq", "mne"}                   \* "comparison"
+Infra == {"HARNESS-PRECONDITION", "unknown-function"}
+LinAlgReasonsScoped(r) ==
+  {IF w \in Infra THEN w ELSE IF r.f \in InScope THEN w ELSE "observed-" \o w : w \in LinAlgReasons(r)}
 =============================================================================
